@@ -1716,3 +1716,9 @@ with open(_os.path.join(_os.path.dirname(_os.path.dirname(_os.path.abspath(__fil
           encoding='utf-8') as _fh:
     GLOBALS_WITNESS = _fh.read()
 ExecuteScript.native_witness = {'C04.library-added-without-overwriting-caller-names': GLOBALS_WITNESS}
+
+import os as _os     # noqa: E402
+with open(_os.path.join(_os.path.dirname(_os.path.dirname(_os.path.abspath(__file__))), 'native', 'witness', 'lookup_witness.py'),
+          encoding='utf-8') as _fh:
+    EvaluateExpression.native_witness = dict(EvaluateExpression.native_witness,
+                                             **{'C04.lookup-locals-then-globals-then-builtins': _fh.read()})
